@@ -20,8 +20,8 @@ spec = {
    "convert() must answer on every generated well-formed input (no exception, no timeout); fallback texts must carry the marker first and compile back to the input op for op (positions renumbered). 'Never raises' is exploration."),
  "C07": ("proof", "Coq proof of the SsbScript round trip on a statement-list model + correspondence of the model with the real printer/compiler + direct round trip on the real code",
    "Script/Proofs.v script_roundtrip: compile_script(print_script P) = renumber P for every routine set with unique offsets and in-range integer targets; Script/Renumber.v renumber_same_cfg: renumbering keeps the flow graph. The model's statement lists and compiled ops are compared with the real text (parsed by the real SsbScript parser) and the real compiler."),
- "C08": ("exploration", "tagged-program generator with recorded positions vs the real compile-time source map",
-   "every op-emitting construct carries a unique tag; positions recorded by the generator's printer are compared with the real map (direct, keyword statements, macro, call site, return address bounds, file set, position marks)."),
+ "C08": ("exploration", "tagged-program generator with recorded positions vs the real compile-time source map; Coq theorem for the return addresses of nested expansions (Comp/MacroRA.v, tie K-ra on every real invocation of build)",
+   "Proved: call_return_addresses, return_address_bounds over the model of ExplorerScriptMacro.build + the builder's context stack. Explored: every op-emitting construct carries a unique tag; positions recorded by the generator's printer are compared with the real map (direct, keyword statements, macro, call site, return address bounds, file set, position marks)."),
  "C09": ("proof", "Coq proofs about a model of the decompilers' text writer (line counter, entry placement) + correspondence on both decompilers; tagged inputs: entries checked against the text and the compile-time map of the recompiled text",
    "Dec/WriterProofs.v: the line counter equals 1 + line feeds written for every operation sequence; an entry recorded before a statement points at its first character. Partial: which op an entry is recorded for is decided on the real decompiler: entries must be keyed by input offsets, point at the first token of the statement of that op, exist for every printed op, and agree in line with the compile-time map of the recompiled text."),
  "C10": ("exploration", "Coq theorems over the specification (a meaning only if well scoped; unknown / under-applied / cyclic macros rejected by inline) tied to the compiler by acceptance; statically meaningless constructs injected into random valid programs; invalid import graphs; corrupted/degenerate inputs; outcome classes",
